@@ -541,6 +541,9 @@ class Lowerer:
         s = self.index2(s)
         s = self.methods(s)
         s = self.calls(s)
+        # std::swap(a, b) that no unit rule (pre_subst / subst / calls) has claimed: a plain exchange of two lvalues of the same (word-modelled) type
+        s, nsw = re.subn(r'\bstd::swap\s*\(', 'XV_STD_SWAP(', s)
+        if nsw: self.fire('std_swap_builtin', nsw)
         s = self.throws(s)
         s = self.decl_in_if(s)
         s = self.references(s)
